@@ -461,19 +461,24 @@ def expected_caches(prev, R):
         if kind == "V9":
             for fs in get(elem_body(e), "flowsets"):
                 b = get(fs, "body")
+                # an id names one template: a definition of either kind supersedes the other kind's
                 if b[0][0] == "Template":
                     for t in get(b[0][1], "templates"):
                         exp["v9_t"][get(t, "template_id")] = [t]
+                        exp["v9_o"].pop(get(t, "template_id"), None)
                 elif b[0][0] == "OptionsTemplate":
                     for t in get(b[0][1], "templates"):
                         exp["v9_o"][get(t, "template_id")] = [t]
+                        exp["v9_t"].pop(get(t, "template_id"), None)
         elif kind == "IPFix":
             for fs in get(elem_body(e), "flowsets"):
                 b = get(fs, "body")
                 if b[0][0] == "Template":
                     exp["ix_t"][get(b[0][1], "template_id")] = [b[0][1]]
+                    exp["ix_o"].pop(get(b[0][1], "template_id"), None)
                 elif b[0][0] == "OptionsTemplate":
                     exp["ix_o"][get(b[0][1], "template_id")] = [b[0][1]]
+                    exp["ix_t"].pop(get(b[0][1], "template_id"), None)
         elif kind == "Error":
             rem = get(elem_body(e), "remaining")
             if len(rem) >= 2 and rem[0] == 0 and rem[1] == 9:
@@ -512,6 +517,7 @@ def failed_v9_templates(p, exp):
                 fs = [(int.from_bytes(body[q + 4 + 4 * i : q + 6 + 4 * i], "big"), int.from_bytes(body[q + 6 + 4 * i : q + 8 + 4 * i], "big")) for i in range(cnt)]
                 if tid >= 256:
                     exp["v9_t"][tid] = [("fields", cnt, fs)]
+                    exp["v9_o"].pop(tid, None)
                 q += 4 + 4 * cnt
         elif fid == 1:
             q = 0
@@ -524,6 +530,7 @@ def failed_v9_templates(p, exp):
                     break
                 if tid >= 256:
                     exp["v9_o"][tid] = [("present",)]
+                    exp["v9_t"].pop(tid, None)
                 q += 6 + need
         else:
             return p[pos:]
@@ -560,10 +567,11 @@ def c06(case, obs, crash):
             # (a) nothing evicted
             pk = cache_keys(prev)
             nk = cache_keys(S)
-            for m in pk:
-                gone = set(pk[m]) - set(nk[m])
+            # an id that had a template of a protocol (of either kind) still has one
+            for a, b in (("v9_t", "v9_o"), ("ix_t", "ix_o")):
+                gone = (set(pk[a]) | set(pk[b])) - (set(nk[a]) | set(nk[b]))
                 if gone:
-                    f.append((None, "parser %d: ids %s evicted from %s" % (k, sorted(gone), m)))
+                    f.append((None, "parser %d: ids %s evicted from %s/%s" % (k, sorted(gone)[:10], a, b)))
             exp, v9_error = expected_caches(prev, R)
             for m in ("v9_t", "v9_o", "ix_t", "ix_o"):
                 now = cache_map(S, m)
@@ -572,8 +580,8 @@ def c06(case, obs, crash):
                     # before the failing one were received and must be cached; further entries are
                     # allowed (records the walk above did not vouch for)
                     for tid, want in exp[m].items():
-                        if tid in now and tid.to_bytes(2, "big") in v9_error:
-                            continue
+                        if tid.to_bytes(2, "big") in v9_error:
+                            continue        # may have been redefined (of either kind) by a flowset the walk did not reach
                         if tid not in now:
                             f.append((None, "parser %d: %s lacks id %d although a complete template record for it was received (in a packet that later failed, or earlier)" % (k, m, tid)))
                         elif isinstance(want[0], tuple):
@@ -707,10 +715,7 @@ def c04_packet(dec, p, e, pads, tables):
         kind = body[0][0]
         want = {"T": "Template", "O": "OptionsTemplate", "D": "Data", "OD": "OptionsData"}[x[0]]
         if kind != want:
-            # V9 consults the options map first: a plain template that supersedes an options template
-            # of the same id is ignored (the stale options template decodes the data)
-            cls = "K_C06_kind_change" if (x[0] == "D" and kind == "OptionsData" and x[1] in dec.kind_changed_v9) else None
-            f.append((cls, "flowset %d (id %d): sent %s, reported %s" % (i, x[1], want, kind)))
+            f.append((None, "flowset %d (id %d): sent %s, reported %s" % (i, x[1], want, kind)))
             continue
         inner = body[0][1]
         if x[0] == "T":
@@ -781,10 +786,7 @@ def c05_packet(dec, p, e, pads, tables):
     if multi:
         return f + [("K_C05_multi_template", "a template set with more than one template record is decoded as one merged template")]
     if len(got) != len(sets):
-        # a data set decoded with the stale plain template of an id that has become an options
-        # template may not fit that template at all: the set fails and the rest of the message goes with it
-        kc = any(x[0] == "OD" and x[1] in dec.kind_changed_ix for x in sets)
-        return f + [("K_C06_kind_change" if kc else None, "IPFIX message with %d sets reported with %d" % (len(sets), len(got)))]
+        return f + [(None, "IPFIX message with %d sets reported with %d" % (len(sets), len(got)))]
     for i, (x, g) in enumerate(zip(sets, got)):
         gh = plain(get(g, "header"))
         if gh.get("header_id") != x[1] or gh.get("length") != x[2]:
@@ -793,10 +795,7 @@ def c05_packet(dec, p, e, pads, tables):
         kind = body[0][0]
         want = {"T": "Template", "O": "OptionsTemplate", "D": "Data", "OD": "OptionsData"}[x[0]]
         if kind != want:
-            # IPFIX consults the templates map first: an options template that supersedes a plain
-            # template of the same id is ignored (the stale plain template decodes the data)
-            cls = "K_C06_kind_change" if (x[0] == "OD" and kind == "Data" and x[1] in dec.kind_changed_ix) else None
-            f.append((cls, "set %d (id %d): sent %s, reported %s" % (i, x[1], want, kind)))
+            f.append((None, "set %d (id %d): sent %s, reported %s" % (i, x[1], want, kind)))
             continue
         inner = body[0][1]
         if x[0] in ("T", "O"):
